@@ -54,6 +54,10 @@ func init() {
 		Weights: w(defaultWeights, map[string]int{"cancel": 10, "requeue": 10, "resume": 8, "dlq_requeue": 6, "dlq_delete": 6, "cancel_f": 12, "requeue_f": 12, "resume_f": 10, "list": 8, "list_dead": 4, "enqueue": 35, "dequeue": 20, "dead": 12, "dead_batch": 4})},
 		"store part: populations of mixed routes/targets/states/timestamps (ties included) and id lists / filters; oracle: reference selection (allowed states, every criterion, newest first by (received_at,id), cap 100/1000), everything else byte-identical, counts equal messages changed, preview changes nothing", 16000, 1000000)
 
+	reg("C07", StoreProfile{Backends: both, Limits: false, Retention: false, MaxSteps: 45, Headers: true,
+		Weights: w(defaultWeights, map[string]int{"enqueue": 30, "enqueue_batch": 8, "dequeue": 30, "nack": 12, "dead": 12, "dead_batch": 4, "advance": 16, "cancel": 8, "requeue": 10, "resume": 8, "dlq_requeue": 10, "cancel_f": 5, "requeue_f": 6, "resume_f": 5})},
+		"store part: payload bytes and header maps of every message stay identical across every operation that brings it back - redelivery after nack and after lease expiry, dead-lettering and DLQ requeue, cancel and resume, by id and by filter - on both backends (model rule C02.immutable.*, full listing with payload, headers and trace after every step; every dequeued item is compared too)", 8000, 400000)
+
 	Register(&CheckSpec{
 		Prop: "C13", World: "diff",
 		Gen: func(t *rapid.T) *Program {
